@@ -130,6 +130,26 @@ Section Id.
       + destruct (p_skey p) as [[|c r]|]; cbv iota; try (apply andb_false_r). exfalso. apply Hn. reflexivity.
   Qed.
 
+  (* ... followed by exactly the explicit list, whether or not that list names the create event
+     itself (it is never merged or moved) *)
+  Theorem built_v12_auth_exact ver p eid ts origin e l :
+    built H ver p eid ts origin e -> domainless ver = true ->
+    (p_type p <> create_type \/ p_skey p <> Some []) -> ids_of (p_auth p) = Some l ->
+    auth_ids e = Some ((36 :: tl (p_room p)) :: l).
+  Proof.
+    intros B Hdl Hnc Hl.
+    destruct (shape_facts ver (b_known _ _ _ _ _ _ _ B)) as (_ & _ & _ & _ & _ & Hdom & _).
+    destruct (Hdom Hdl) as [Hc3 _].
+    assert (Hc : class_trusted ver <> 1) by (rewrite Hc3; discriminate).
+    destruct (built_fields _ _ _ _ _ _ B) as (F1 & _ & F3 & F4 & _ & _ & _ & _ & F9 & _).
+    destruct (F9 Hc) as [_ Fa].
+    assert (Hcr : is_create e = false).
+    { unfold is_create. rewrite F1, F4. destruct Hnc as [Hn|Hn].
+      - apply bytes_eqb_neq in Hn. rewrite Hn. reflexivity.
+      - destruct (p_skey p) as [[|c r]|]; cbv iota; try (apply andb_false_r). exfalso. apply Hn. reflexivity. }
+    unfold auth_ids. rewrite (b_class _ _ _ _ _ _ _ B), Hc3, Hcr, F3, Fa, Hl. reflexivity.
+  Qed.
+
   (* ---------- different events, different IDs ---------- *)
   Lemma bytes_leb_refl a : bytes_leb a a = true.
   Proof. unfold bytes_leb. assert (E : bytes_cmp a a = Eq) by (apply bytes_cmp_eq; reflexivity). rewrite E. reflexivity. Qed.
